@@ -7,6 +7,7 @@ func init() {
 		ID:    "C07",
 		Title: "Each @component use renders the component file with its own arguments and slots",
 		Rules: []string{
+			"R-LAYOUT (alias) / R-EMIT: ~ expands to components/ only as the first character; evalProgram evaluates and emits every statement on every evaluation",
 			"R-DIRMODE: after each directive, followed by `(`, by another character and by a blank and `(`, the lexer is in the mode the directive's grammar asks for (case evaluation of directiveToken on real lexer states)",
 			"R-BODYENTRY: every caller of the block parser, evaluated by cases on an abstract parser (token types as named unknowns), enters it only on a token it has looked at and that is not END / ELSE / ELSE_IF — an empty body is an empty block, not the enclosing construct's closer",
 			"R-OWN: a parsed component program is stored into the Block of one use only (a loop-invariant program stored into loop-varying uses must leave the loop), the loader passes a freshly parsed program per use, ApplyComponent serves a use that has no program yet; a missing component file is reported with the component's name",
@@ -20,6 +21,8 @@ func init() {
 		NotDecided:  "TODO",
 		Assumptions: trustedBase,
 		Run: func(m *Model, s *Sink) {
+			m.RunEmit(s, "R-EMIT")           // every statement of a component program is evaluated for every use
+			m.RunLayout(s, "R-LAYOUT")       // ~ expands only as the first character of a component name
 			m.RunTextSkip(s, "R-TEXTKEEP")   // text between slots is whitespace, or an error
 			m.RunSlotListEnd(s, "R-DELIM")   // a component use with slots is closed by its own @end
 			m.RunDirMode(s, "R-DIRMODE")     // @slot takes its name only from parentheses that follow at once: `@slot (text)` is a default slot and text
